@@ -223,6 +223,56 @@ func addAliases(c *Case, ts *TS, cc *hotline.ClientConn, tree *tnode, parent str
 			file: &diskFile{Dir: d.dir, Name: name, ReqName: []byte(name), Data: tdata, ModTime: tmod}})
 		tree.hasLinks = true
 	}
+	// aliases of FOLDERS: one folder item without children, whatever the target holds (the walk does not descend)
+	outDir := filepath.Join(ts.Root, "outside-targets", fmt.Sprintf("dir%d", r.Intn(1000)))
+	os.MkdirAll(filepath.Join(outDir, "inner"), 0755)
+	os.WriteFile(filepath.Join(outDir, "inner", "not-sent.txt"), []byte("below an aliased folder"), 0644)
+	os.WriteFile(filepath.Join(outDir, "not-sent-either"), genData(r, 10), 0644)
+	for i, m := 0, r.Intn(3); i < m; i++ {
+		d := dirs[r.Intn(len(dirs))]
+		used := map[string]bool{}
+		for _, k := range d.n.kids {
+			used[k.name] = true
+		}
+		tg := dirs[r.Intn(len(dirs))]
+		target, name := tg.dir, tg.n.name
+		parentComps := tg.comps[:len(tg.comps)-1]
+		viaHandler := false
+		if r.Chance(30) {
+			target, name = outDir, filepath.Base(outDir)
+		} else if !used[name] && filepath.Dir(tg.dir) != d.dir && r.Chance(60) {
+			ascii := isASCII(name)
+			for _, cp := range append(append([][]byte{}, parentComps...), d.comps...) {
+				ascii = ascii && isASCII(string(cp))
+			}
+			viaHandler = ascii
+		}
+		if !viaHandler {
+			name = r.pickStr("dir-alias-", "to ", ".hidden-dir-alias-", "y-") + name
+		}
+		if used[name] || len(name) > 200 {
+			continue
+		}
+		lp := filepath.Join(d.dir, name)
+		if viaHandler {
+			res, _, pan := ts.Call(cc, mkTran(hotline.TranMakeFileAlias, 9100+uint32(i), fld(hotline.FieldFileName, []byte(name)),
+				fld(hotline.FieldFilePath, encodePathItems(parentComps)), fld(hotline.FieldFileNewPath, encodePathItems(d.comps))))
+			if pan != nil || len(res) != 1 || res[0].ErrorCode != [4]byte{} {
+				continue
+			}
+			c.Dist("folder-download/folder-alias-by-handler")
+		} else {
+			if os.Symlink(target, lp) != nil {
+				continue
+			}
+			c.Dist("folder-download/folder-alias-by-fixture")
+		}
+		if fi, err := os.Lstat(lp); err != nil || fi.Mode()&os.ModeSymlink == 0 {
+			continue
+		}
+		d.n.kids = append(d.n.kids, &tnode{name: name, isDir: true, linkTo: target})
+		tree.hasLinks = true
+	}
 }
 
 // writeTree stores the tree below parentDir.
@@ -1537,7 +1587,7 @@ func runC10Regressions(c *Case) {
 
 func init() {
 	props["C10"] = func(x *Ctx) {
-		x.rule = "folder-download: 4 trees per case (depth ≤ 4, fan-out ≤ 5, ≤ 60 entries — 30% of the cases one tree with fan-out ≤ 7 and up to 150 entries —, empty folders, dot-files and dot-folders with visible entries below them, names chosen to separate per-directory byte order from whole-path order, file sizes 0..100 KiB (thorough 200 KiB), optional .info_/.rsrc_ side files, requested at the root or one level down; half of the trees additionally hold 1..4 aliases of files — made by the real Make Alias transaction or placed by the fixture, visible and dot-named, pointing inside or outside the tree — which must be sent as files carrying the target's bytes), each downloaded under 3 action scripts (all send; mixed send/resume/next; resume-heavy or all next; resume offsets 0,1,size-1,size,random; 12% of the runs the client disconnects at an item header or after a file). folder-upload: 4 client trees per case streamed in client order into an empty, partly or largely pre-populated folder (existing folders, complete files with equal, other or EMPTY contents, partial files holding a prefix; 40% of the uncut uploads are streamed a second time), 45% cut inside a file item (before the size, inside the header, at header end ±1, mid data, last byte) followed by a second complete session. folder-roundtrip: upload into an empty folder, then download with all-send. long-names: folders named with 252, 253, 254 and 255 bytes (nested, with files named with up to 244 bytes = NAME_MAX minus the .incomplete suffix) uploaded and downloaded again, and stored files named with 252..255 bytes downloaded. non-trivial = a file item whose bytes were transferred (download) / a session that streamed at least one item (upload); distinct = distinct (path, size, action, fork combination) resp. (items, pre-population, cut)"
+		x.rule = "folder-download: 4 trees per case (depth ≤ 4, fan-out ≤ 5, ≤ 60 entries — 30% of the cases one tree with fan-out ≤ 7 and up to 150 entries —, empty folders, dot-files and dot-folders with visible entries below them, names chosen to separate per-directory byte order from whole-path order, file sizes 0..100 KiB (thorough 200 KiB), optional .info_/.rsrc_ side files, requested at the root or one level down; half of the trees additionally hold 1..4 aliases of files — made by the real Make Alias transaction or placed by the fixture, visible and dot-named, pointing inside or outside the tree — which must be sent as files carrying the target's bytes — and 0..2 aliases of FOLDERS (inside or outside the tree, made by the handler or the fixture), each of which must be announced as one folder item without children), each downloaded under 3 action scripts (all send; mixed send/resume/next; resume-heavy or all next; resume offsets 0,1,size-1,size,random; 12% of the runs the client disconnects at an item header or after a file). folder-upload: 4 client trees per case streamed in client order into an empty, partly or largely pre-populated folder (existing folders, complete files with equal, other or EMPTY contents, partial files holding a prefix; 40% of the uncut uploads are streamed a second time), 45% cut inside a file item (before the size, inside the header, at header end ±1, mid data, last byte) followed by a second complete session. folder-roundtrip: upload into an empty folder, then download with all-send. long-names: folders named with 252, 253, 254 and 255 bytes (nested, with files named with up to 244 bytes = NAME_MAX minus the .incomplete suffix) uploaded and downloaded again, and stored files named with 252..255 bytes downloaded. non-trivial = a file item whose bytes were transferred (download) / a session that streamed at least one item (upload); distinct = distinct (path, size, action, fork combination) resp. (items, pre-population, cut)"
 		x.assume = []string{
 			"root folder names are visible (no leading dot); names ending in .incomplete or starting with .info_/.rsrc_ are not generated (the on-disk naming scheme cannot tell them from partial/side files)",
 			"resume of a file with a stored resource fork, and a resource fork without an information fork, are compared with the model as coded (DESIGN §7 C08 'not covered': resume of the resource fork); the size-prefix clause is judged directly only without a stored resource fork or for 'send'",
